@@ -41,9 +41,13 @@ type c18Scenario struct {
 	Expire  []int    // ENV thread, in order: i = the current session lease of broker i expires; 10+i = the session of broker i's previous (crashed) incarnation expires
 	Group   bool     // use GroupLeaseManager instead of PartitionLeaseManager
 	FailOps bool
+	Reply   bool // transaction replies are separate scheduling points (effect at the server | reply seen by the caller)
 }
 
 func (sc c18Scenario) String() string {
+	if sc.Reply {
+		return fmt.Sprintf("%s|exp=%v|group=%v|fail=%v|reply-points", strings.Join(sc.Seqs, ","), sc.Expire, sc.Group, sc.FailOps)
+	}
 	return fmt.Sprintf("%s|exp=%v|group=%v|fail=%v", strings.Join(sc.Seqs, ","), sc.Expire, sc.Group, sc.FailOps)
 }
 
@@ -68,6 +72,7 @@ func (b *c18Broker) fresh(srv *fakeetcd.Server, sc c18Scenario, gen int) {
 	b.cli = srv.NewClient(fmt.Sprintf("%s.%d", b.id, gen))
 	b.cli.FailOps = sc.FailOps
 	b.cli.LoseAcks = sc.FailOps
+	b.cli.ReplyPoints = sc.Reply
 	if sc.Group {
 		b.gm = NewGroupLeaseManager(b.cli.C, GroupLeaseConfig{BrokerID: b.id, Logger: c18Logger()})
 	} else {
@@ -293,6 +298,24 @@ func c18Scenarios(thorough bool) []c18Scenario {
 			out = append(out, c18Scenario{Seqs: pair, Expire: ex, FailOps: true})
 		}
 	}
+	// the answer of an etcd transaction travels: expiry (and everything else) may land between the
+	// server-side effect and the caller seeing the reply
+	for _, sc := range []c18Scenario{
+		{Seqs: []string{"A", "A"}, Expire: []int{0}},
+		{Seqs: []string{"A", "A"}, Expire: []int{0, 1}},
+		{Seqs: []string{"AR", "A"}, Expire: []int{0}},
+		{Seqs: []string{"AA", "A"}, Expire: []int{0}},
+		{Seqs: []string{"Aa", "A"}, Expire: []int{0}},
+		{Seqs: []string{"ASA", "A"}, Expire: []int{10}},
+		{Seqs: []string{"ASA", "A"}, Expire: []int{0}},
+		{Seqs: []string{"A", "A", "A"}, Expire: []int{0}},
+		{Seqs: []string{"AR", "A", "A"}, Expire: []int{0}},
+	} {
+		sc.Reply = true
+		out = append(out, sc)
+		sc.Group = true
+		out = append(out, sc)
+	}
 	if thorough {
 		var long []string
 		enum.Sequences(4, 3, func(idx []int) bool {
@@ -322,7 +345,7 @@ func c18Scenarios(thorough bool) []c18Scenario {
 func TestVerifC18(t *testing.T) {
 	rep := vh.New(t, "C18")
 	defer rep.Finish()
-	rep.Rule = "for every closed system (per-broker op sequences over {Acquire r1/r2, Release, ReleaseAll, crash-restart} x session-expiry events x optional etcd failures): DFS over all interleavings at etcd-operation granularity (preemption bound) and failure decisions (deviation bound) of real LeaseManagers over a fake etcd; invariant |owners(r)|<=1 after every step; distinct = distinct (final owners, etcd contents); non-trivial = >=1 thread switch or failure"
+	rep.Rule = "for every closed system (per-broker op sequences over {Acquire r1/r2, Release, ReleaseAll, crash-restart} x session-expiry events x optional etcd failures x optional separate reply points of transactions): DFS over all interleavings at etcd-operation granularity (preemption bound) and failure decisions (deviation bound) of real LeaseManagers over a fake etcd; invariant |owners(r)|<=1 after every step; distinct = distinct (final owners, etcd contents); non-trivial = >=1 thread switch or failure"
 	rep.Assumptions = []string{"fake etcd (KV+lease+txn) stands for etcd; lease expiry deletes attached keys atomically and closes the keep-alive stream; monitorSession runs to completion before the next etcd operation"}
 	P, D := 2, 1
 	if vh.Thorough() {
